@@ -195,6 +195,13 @@ def linear_fermionic_case(ctx, idx, rng):
     ctx.close('linferm.dense==formula', np.abs(M - R).max(), 1e-12 * sc, 'linear fermionic MPO differs from sum_i coeff_i a(+)_i with Jordan-Wigner signs', detail)
     ctx.ok('linferm.charge-shift', int(op.qD[-1][0]) - int(op.qD[0][0]) == shift * (int(op.qd[1]) - int(op.qd[0])) and op.qd[1] != op.qd[0],
            f'boundary charges {op.qD[0]}, {op.qD[-1]} do not encode a particle-number shift of {shift}', detail)
+    if idx % 3 == 1 and np.issubdtype(np.asarray(c).dtype, np.inexact):
+        # history: the SAME coefficient array changed in place, operator built again
+        c *= 2.0
+        c[0] = c[0] + 1.0
+        M2 = refs.dense_operator(ptn.linear_fermionic_mpo(c, ftype).A)
+        R2 = sum(c[i] * (a[i].T.toarray() if ft[0] == 'c' else a[i].toarray()) for i in range(L))
+        ctx.close('linferm.dense==formula[after-inplace-edit]', np.abs(M2 - R2).max(), 1e-12 * max(1.0, np.abs(c).max()), 'operator built after an in-place change of coeff does not follow it', detail)
     # convention-free oracle: canonical anticommutation relations of the unit-coefficient operators, linearity in coeff
     if L <= 5 and idx % 3 == 0:
         A = [refs.dense_operator(ptn.linear_fermionic_mpo(np.eye(L)[i], 'a').A) for i in range(L)]
